@@ -309,23 +309,24 @@ def inline_aliases(fn_node):
     (`is_data = isinstance(entity, Data)`, `missing = self.keys is None`) — replaced by that expression wherever it is read."""
     defs = Defs(fn_node)
 
-    def pure(e, nm):
+    def pure(e, nm, strict=True):
         if isinstance(e, ast.Name):
-            return e.id != nm and (e.id in ("self", "cls") or e.id in alias or not defs.rebound(e.id))  # parameters / globals never re-bound
+            # parameters / globals never re-bound (strict); any other local when only the shape is asked for
+            return e.id != nm and (not strict or e.id in ("self", "cls") or e.id in alias or not defs.rebound(e.id))
         if isinstance(e, ast.Attribute):
-            return pure(e.value, nm)
+            return pure(e.value, nm, strict)
         if isinstance(e, ast.Constant):
             return True
         if isinstance(e, ast.Tuple):
-            return all(pure(x, nm) for x in e.elts)
+            return all(pure(x, nm, strict) for x in e.elts)
         if isinstance(e, ast.Compare):
-            return pure(e.left, nm) and all(pure(x, nm) for x in e.comparators)
+            return pure(e.left, nm, strict) and all(pure(x, nm, strict) for x in e.comparators)
         if isinstance(e, ast.BoolOp):
-            return all(pure(x, nm) for x in e.values)
+            return all(pure(x, nm, strict) for x in e.values)
         if isinstance(e, ast.UnaryOp) and isinstance(e.op, ast.Not):
-            return pure(e.operand, nm)
+            return pure(e.operand, nm, strict)
         if isinstance(e, ast.Call) and isinstance(e.func, ast.Name) and e.func.id in ("isinstance", "hasattr") and not e.keywords:
-            return all(pure(x, nm) for x in e.args)
+            return all(pure(x, nm, strict) for x in e.args)
         return False
 
     alias: dict = {}
@@ -337,7 +338,15 @@ def inline_aliases(fn_node):
             if nm not in alias and v is not None and not isinstance(v, ast.Tuple) and pure(v, nm):
                 alias[nm] = v
                 grown = True
-    if not alias:
+    # a test read into a local over names that ARE re-bound somewhere (`missing = values is None` ... `values = values.astype(..)`):
+    # replaced at a use only when every name it reads has the same reaching definitions at the use as at the binding
+    flow_alias = {}
+    for nm in defs.all:
+        v = defs.single(nm)
+        if nm not in alias and v is not None and isinstance(v, (ast.Compare, ast.BoolOp, ast.UnaryOp, ast.Call)):
+            if pure(v, nm, strict=False):  # purity of the shape only; stability is decided per use below
+                flow_alias[nm] = v
+    if not alias and not flow_alias:
         return fn_node
 
     class A(ast.NodeTransformer):
@@ -348,6 +357,39 @@ def inline_aliases(fn_node):
 
     new = copy.deepcopy(fn_node)
     new.body = [A().visit(s) for s in new.body]
+    if flow_alias:
+        try:
+            rd = Reaching(new)
+        except Exception:  # a construct the CFG does not model: leave the flow-dependent aliases alone
+            rd = None
+        if rd is not None:
+            where_bound = {}
+            for n in rd.g.nodes:
+                if n.kind == "stmt" and isinstance(n.ast, (ast.Assign, ast.AnnAssign)):
+                    for t in (n.ast.targets if isinstance(n.ast, ast.Assign) else [n.ast.target]):
+                        if isinstance(t, ast.Name) and t.id in flow_alias:
+                            where_bound[t.id] = n
+
+            def stable(nm, use):
+                d = where_bound.get(nm)
+                if d is None or d not in rd.IN or use not in rd.IN:
+                    return False
+                if [x[0] for x in rd.at(use, nm)] != [(d.id, i) for i, b in enumerate(_stmt_bindings(d)) if b[0] == nm]:
+                    return False
+                read = {x.id for x in ast.walk(flow_alias[nm]) if isinstance(x, ast.Name)}
+                return all([x[0] for x in rd.at(use, r)] == [x[0] for x in rd.at(d, r)] for r in read)
+
+            for n in rd.g.nodes:
+                if n.kind != "test" or n.ast is None or not isinstance(n.stmt, (ast.If, ast.While)):
+                    continue
+
+                class F(ast.NodeTransformer):
+                    def visit_Name(self, x, n=n):
+                        if isinstance(x.ctx, ast.Load) and x.id in flow_alias and stable(x.id, n):
+                            return ast.copy_location(copy.deepcopy(where_bound[x.id].ast.value), x)
+                        return x
+
+                n.stmt.test = F().visit(n.stmt.test)
     return ast.fix_missing_locations(new)
 
 
